@@ -50,7 +50,7 @@ class HObj:
         o.frozen = self.frozen
         if getattr(self, "opt", None) is not None:
             o.opt = dict(self.opt)      # dict with optional keys: key -> presence guard
-        for k in ("uctx", "open", "other", "other_key"):      # untrusted containers (types ulist: / udict:), immutable
+        for k in ("uctx", "open", "other", "other_key", "alien"):      # untrusted containers (types ulist: / udict:), immutable
             if hasattr(self, k):
                 setattr(o, k, getattr(self, k))
         if hasattr(self, "cache"):
